@@ -746,6 +746,91 @@ def o_edge_integrals_2d(spec, base, model=None):
     return None
 
 
+def zero_density_specs(rng):
+    """models whose CONDITIONING variables have a positive, finite density at exactly 0 (Weibull with beta = 1 and gamma = 0,
+    generalised gamma with m * c = 1, a ScipyDistribution weibull_min with c = 1): the joint density at a point with a
+    conditioning coordinate 0 is a positive number, f0(0) * f1(x1 | 0) ..., not 0"""
+    u = rng.uniform
+    roots = [{"fam": "W", "cond": None, "params": {"alpha": ["val", u(1.5, 3.0)], "beta": ["val", 1.0], "gamma": ["val", 0.0]}},
+             {"fam": "GG", "cond": None, "params": {"m": ["val", 1.0], "c": ["val", 1.0], "lambda_": ["val", u(0.4, 1.5)]}},
+             {"fam": "SW", "cond": None, "params": {"c": ["val", 1.0], "loc": ["val", 0.0], "scale": ["val", u(1.0, 3.0)]}}]
+    mids = [{"fam": "W", "cond": 0, "params": {"alpha": ["dep", "lin", [u(0.8, 1.5), u(0.2, 0.6)]], "beta": ["fix", 1.0], "gamma": ["fix", 0.0]}},
+            {"fam": "GG", "cond": 0, "params": {"m": ["fix", 1.0], "c": ["fix", 1.0], "lambda_": ["dep", "asym", [0.4, 0.8, 0.7]]}}]
+    leaves = [lambda c: {"fam": "LN", "cond": c, "params": {"mu": ["dep", "lin", [u(0.3, 0.8), u(0.1, 0.3)]], "sigma": ["fix", u(0.3, 0.6)]}},
+              lambda c: {"fam": "EW", "cond": c, "params": {"alpha": ["dep", "sat", [u(0.8, 1.5), u(0.5, 1.0)]], "beta": ["dep", "lnsq", [u(2.0, 4.0), u(1.0, 3.0)]], "delta": ["fix", 2.0]}},
+              lambda c: {"fam": "W", "cond": c, "params": {"alpha": ["dep", "pw", [u(0.8, 1.5), u(0.2, 0.6), u(0.6, 1.2)]], "beta": ["fix", u(1.2, 2.5)], "gamma": ["fix", 0.0]}}]
+    out = []
+    for k, r in enumerate(roots):
+        out.append({"dims": [dict(r), leaves[k % 3](0)]})                                    # [None, 0]
+        out.append({"dims": [dict(r), dict(mids[k % 2]), leaves[(k + 1) % 3](1)]})           # [None, 0, 1]
+    out.append({"dims": [dict(roots[0]), dict(mids[1]), leaves[2](1), leaves[0](1)]})        # [None, 0, 1, 1]
+    return out
+
+
+def o_zero_conditioning(spec, base):
+    """the joint density at points whose conditioning coordinate(s) are exactly 0 (float and integer zero, alone and in a
+    batch with other rows) equals the independent product -- positive where every factor is"""
+    model = M.build_model(spec)
+    used = sorted({d["cond"] for d in spec["dims"] if d["cond"] is not None})
+    rows = []
+    for j in used:
+        r = list(base)
+        r[j] = 0.0
+        rows.append(r)
+    r = list(base)
+    for j in used:
+        r[j] = 0.0
+    rows.append(r)
+    want = [float(v) for v in M.spec_pdf(spec, rows)]
+    for row, w in zip(rows, want):
+        if math.isnan(w):
+            continue
+        for obj, label in (([row], "float"), (np.array([row] + [list(base)]), "float batch")):
+            got = run_method(model, "pdf", obj)
+            if isinstance(got, dict) or not vlib.close(got[0], w, rel=TOL, abs_=1e-290):
+                return ({"clause": "product", "method": "pdf", "kind": "conditioning-value-zero"},
+                        "pdf(%r) = %r but the product of the (conditional) densities is %r (conditional_on=%r; the conditioning value 0 is in the support)" % (
+                            row, got if isinstance(got, dict) else got[0], w, list(M.structure(spec))))
+        if all(float(v).is_integer() for v in row):
+            got = run_method(model, "pdf", [int(v) for v in row])
+            if isinstance(got, dict) or not vlib.close(got[0], w, rel=TOL, abs_=1e-290):
+                return ({"clause": "product", "method": "pdf", "kind": "conditioning-value-zero", "dtype": "int"},
+                        "pdf(%r) = %r for integers, product %r" % ([int(v) for v in row], got, w))
+    return None
+
+
+def o_icdf_tail(spec, seed, ps):
+    """2-D [None, 0]: marginal_icdf of the conditional variable at TAIL probabilities (Monte-Carlo samples of several million
+    rows): the non-tail quantiles asked for in the same call must satisfy F(x_p) = p (1-D quadrature, DKW band of that
+    sample size), the tail quantiles must lie inside the support, and the sample the answer is computed from has no row
+    that was never drawn"""
+    model = M.build_model(spec)
+    n = mc_size_py(ps, 1)
+    xs = np.atleast_1d(model.marginal_icdf(list(ps), 1, random_state=seed))
+    eps = math.sqrt(math.log(2 / 1e-12) / (2 * n))
+    for p_, x in zip(ps, xs):
+        F = model_marginal_cdf_1d(model, float(x))
+        tail = min(p_, 1 - p_)
+        tol = 3 * eps + 1e-3 if tail > 1e-2 else None
+        if not (x > 0) or not math.isfinite(x):
+            return ({"clause": "marginal-icdf", "kind": "tail"},
+                    "marginal_icdf(%r, 1, random_state=%d) (Monte-Carlo sample of %d rows) returns %r for p = %r: not inside the support" % (list(ps), seed, n, float(x), p_))
+        if tol is not None and abs(F - p_) > tol:
+            return ({"clause": "marginal-icdf", "kind": "tail"},
+                    "marginal_icdf(%r, 1, random_state=%d) (Monte-Carlo sample of %d rows) = %r for p = %r, but the marginal cdf there is %.4f (DKW band %.4f)" % (
+                        list(ps), seed, n, float(x), p_, F, eps))
+        if tol is None and not (tail / 4 <= min(F, 1 - F) <= tail * 4):
+            return ({"clause": "marginal-icdf", "kind": "tail"},
+                    "marginal_icdf at the tail probability %r = %r, but the marginal cdf there is %r" % (p_, float(x), F))
+    a = np.asarray(model.draw_sample(n, random_state=seed))
+    nz = int(np.sum(np.all(a == 0, axis=1)))
+    if a.shape != (n, 2) or nz:
+        return ({"clause": "marginal-icdf", "kind": "tail", "what": "sample"},
+                "draw_sample(%d, random_state=%d), the sample marginal_icdf(%r, 1) is computed from: shape %r, %d rows are all zero (never drawn), e.g. row %d" % (
+                    n, seed, list(ps), a.shape, nz, int(np.argmax(np.all(a == 0, axis=1)))))
+    return None
+
+
 def mc_size_py(ps, pf):
     p_small = min(min(ps), 1 - max(ps))
     return max(int((1 / p_small) * (100 * pf)), 100000)
@@ -892,6 +977,10 @@ def replay(ctx, rp):
         o = o_edge_rows(spec, rp["base"])
     elif kind == "edge_integrals":
         o = o_edge_integrals_2d(spec, rp["base"])
+    elif kind == "zero_conditioning":
+        o = o_zero_conditioning(spec, rp["base"])
+    elif kind == "icdf_tail":
+        o = o_icdf_tail(spec, rp["seed"], rp["ps"])
     elif kind == "icdf_seed":
         o = o_icdf_seed(spec, rp["dim"], rp["seed"], rp["ps"], rp["pf"])
     elif kind == "icdf_nd":
@@ -1127,6 +1216,26 @@ def run(ctx):
         nedge += 1
         report(o_edge_rows(sp, base), {"oracle": "edge_rows", "spec": sp, "base": base})
     marks.append(("edge", _t.time()))
+    # (2e') conditioning coordinates exactly 0 where the conditioning variable has a positive density at 0
+    for zsp in zero_density_specs(rng):
+        base = [rng.uniform(0.6, 2.5) for _ in zsp["dims"]]
+        nedge += 1
+        report(o_zero_conditioning(zsp, base), {"oracle": "zero_conditioning", "spec": zsp, "base": base})
+        ibase = [float(rng.randrange(1, 4)) for _ in zsp["dims"]]
+        report(o_zero_conditioning(zsp, ibase), {"oracle": "zero_conditioning", "spec": zsp, "base": ibase})
+        report(o_product(zsp, [base, ibase]), {"oracle": "product", "spec": zsp, "rows": [base, ibase]})
+    # ... and on every generated model too (the independent product decides; nan there = not judged)
+    for sp in specs[:ctx.n(70, 700)]:
+        if any(d["cond"] is not None for d in sp["dims"]):
+            base = make_rows(rng, sp, 1)[0]
+            report(o_zero_conditioning(sp, base), {"oracle": "zero_conditioning", "spec": sp, "base": base})
+    # (2e'') tail probabilities: Monte-Carlo samples of 2.5 and 3.3 million rows
+    ntail = 0
+    for ps_ in ([4e-5, 0.5, 0.9], [0.1, 0.5, 1 - 3e-5]):
+        hs, _hb = history_specs(rng)
+        seed = rng.randrange(2 ** 31)
+        ntail += 1
+        report(o_icdf_tail(hs, seed, ps_), {"oracle": "icdf_tail", "spec": hs, "seed": seed, "ps": ps_})
     # (2f) marginal_icdf with random_state on conditional dimensions of 2-D .. 4-D chains
     nicdf = 0
     cond_models = [sp for sp in specs if any(d["cond"] is not None for d in sp["dims"])]
@@ -1201,7 +1310,7 @@ def run(ctx):
             report(o_predefined(name, sd, ctx.n(10, 60)), {"oracle": "predefined", "name": name, "seed": sd, "real_seconds": ctx.n(10, 60)})
     marks.append(("real_nquad", _t.time()))
     ctx.notes["seconds_per_stage"] = {b[0]: round(b[1] - a[1], 1) for a, b in zip(marks, marks[1:])}
-    ctx.notes["search"] = {"product_oracle_models": nprod, "int_vs_float_models": nint, "integrand_semantics_calls": nsem, "multi_point_calls_vs_one_at_a_time": nrows, "marginal_icdf_histories": nhist, "edge_and_predefined_calls": nedge, "marginal_icdf_seed_and_ndim_checks": nicdf,
+    ctx.notes["search"] = {"product_oracle_models": nprod, "int_vs_float_models": nint, "integrand_semantics_calls": nsem, "multi_point_calls_vs_one_at_a_time": nrows, "marginal_icdf_histories": nhist, "edge_and_predefined_calls": nedge, "marginal_icdf_seed_and_ndim_checks": nicdf, "marginal_icdf_tail_round_trips (n = 2.5e6, 3.3e6)": ntail,
                            "predefined_models": sorted(M.PREDEFINED), "real_nquad_2d_models": nquad_checked, "real_nquad_skipped_for_time": skipped, "unjudged_slow_or_saturated_nquad_calls": unjudged["slow_nquad"],
                            "marginal_icdf_worst_|F(x_p)-p|": worst_icdf,
                            "3-D real nquad": "not run (one call takes minutes); 3-D/4-D integrands are checked through the probing stub"}
